@@ -261,6 +261,15 @@ fn lifted(cases: &[Case]) -> Vec<Case> {
 
 pub fn items(include_b: bool) -> Vec<Item> {
     let mut cases = corpus::corpus_a();
+    // parameter variants are examples too (their labels are rewritten to A:.. so that they get lifted as well)
+    let variants: Vec<Case> = corpus::corpus_a_param_variants()
+        .into_iter()
+        .map(|mut c| {
+            c.label = format!("A:{}", &c.label[2..]);
+            c
+        })
+        .collect();
+    cases.extend(variants);
     let lifted_cases = lifted(&cases);
     cases.extend(lifted_cases);
     if include_b {
@@ -443,7 +452,7 @@ pub fn run(ctx: &Ctx) -> ! {
         for e in 0..it.events.len() {
             let is_hash = it.case.tags.iter().any(|t| t == "hash");
             // lifted examples repeat code the plain examples already sweep; the quick tier skips them here
-            let is_lifted = it.case.tags.iter().any(|t| t == "lifted");
+            let is_lifted = it.case.tags.iter().any(|t| t == "lifted" || t == "param-variant");
             let s_sweep = if is_hash { s_hash } else if is_lifted && ctx.quick() { 0 } else { s_plain };
             for k in 0..s_sweep {
                 let mut s = golden_session(it, e);
